@@ -426,30 +426,6 @@ theorem updEvents_inv (w : WorkId) (evs : List (Fd × Mask)) : ∀ (x : Exec), w
       have := ih x' (h2 ▸ hw) h1
       exact ⟨this.1, this.2.trans h2⟩
 
-theorem updWork_inv (x : Exec) (w : WorkId) (ev : EvRes) (hw : w ∈ x.works) (hi : Inv x) :
-    Inv (updWork x w ev).1 ∧ (updWork x w ev).1.works = x.works := by
-  cases ev with
-  | exc => exact ⟨hi, rfl⟩
-  | ok evs => exact updEvents_inv w evs x hw hi
-
-theorem updAll_inv (env : RoundEnv) (l : List WorkId) : ∀ (x : Exec), (∀ w ∈ l, w ∈ x.works) → Inv x →
-    Inv (updAll env x l).1 ∧ (updAll env x l).1.works = x.works ∧ (updAll env x l).2.Sublist l := by
-  induction l with
-  | nil => intro x _ hi; exact ⟨hi, rfl, List.Sublist.refl _⟩
-  | cons w r ih =>
-    intro x hl hi
-    unfold updAll
-    have h1 := updWork_inv x w (env.beh w).events (hl w (List.mem_cons_self)) hi
-    rcases h : updWork x w (env.beh w).events with ⟨x1, bad⟩
-    rw [h] at h1
-    simp only at h1
-    have h2 := ih x1 (fun v hv => h1.2 ▸ hl v (List.mem_cons_of_mem _ hv)) h1.1
-    simp only
-    refine ⟨h2.1, h2.2.1.trans h1.2, ?_⟩
-    cases bad
-    · simp; exact List.Sublist.cons _ h2.2.2
-    · simp; exact h2.2.2
-
 theorem unregC_idem (c : Cell) (fd : Fd) : (unregC (unregC c fd).1 fd).1 = (unregC c fd).1 := by
   unfold unregC; grind
 
@@ -505,6 +481,160 @@ theorem mem_keysOf_iff (r : List (Fd × Mask)) (fd : Fd) : fd ∈ keysOf r ↔ a
         · exact absurd h.symm e1
         · exact h
   · exact mem_keys_of_aget_ne_none
+
+theorem aget_filter_key {ν : Type} (r : List (Fd × ν)) (q : Fd → Bool) (k : Fd) :
+    aget (r.filter (fun e => q e.1)) k = if q k = true then aget r k else none := by
+  induction r with
+  | nil => simp
+  | cons e rest ih =>
+    obtain ⟨a, v⟩ := e
+    by_cases hq : q a = true
+    · simp only [List.filter_cons, hq, if_true, aget_cons, ih]
+      by_cases e1 : a = k
+      · subst e1; simp [hq]
+      · simp [e1]
+    · simp only [List.filter_cons, hq, Bool.false_eq_true, if_false, ih, aget_cons]
+      by_cases e1 : a = k
+      · subst e1; simp [hq]
+      · simp [e1]
+
+/-- descriptors of registry `r` that the events list no longer mentions -/
+def staleOf (r evs : List (Fd × Mask)) : List (Fd × Mask) :=
+  r.filter (fun e => !decide (e.1 ∈ evs.map (·.1)))
+
+def keptOf (r evs : List (Fd × Mask)) : List (Fd × Mask) :=
+  r.filter (fun e => decide (e.1 ∈ evs.map (·.1)))
+
+theorem mem_keysOf_staleOf (r evs : List (Fd × Mask)) (fd : Fd) :
+    fd ∈ keysOf (staleOf r evs) ↔ fd ∈ keysOf r ∧ fd ∉ evs.map (·.1) := by
+  rw [mem_keysOf_iff, mem_keysOf_iff]
+  unfold staleOf
+  rw [aget_filter_key r (fun k => !decide (k ∈ evs.map (·.1)))]
+  by_cases h : fd ∈ evs.map (·.1) <;> simp [h]
+
+theorem aget_keptOf (r evs : List (Fd × Mask)) (fd : Fd) :
+    aget (keptOf r evs) fd = if fd ∈ evs.map (·.1) then aget r fd else none := by
+  unfold keptOf
+  rw [aget_filter_key r (fun k => decide (k ∈ evs.map (·.1)))]
+  by_cases h : fd ∈ evs.map (·.1) <;> simp [h]
+
+theorem pruneStale_spec (x : Exec) (w : WorkId) (evs : List (Fd × Mask)) :
+    (pruneStale x w evs).works = x.works ∧
+    (∀ w', aget (pruneStale x w evs).registered w' =
+      if w' = w then (aget x.registered w).map (fun r => keptOf r evs) else aget x.registered w') ∧
+    (∀ fd', cell (pruneStale x w evs).sk fd' =
+      if fd' ∈ keysOf (staleOf (regOf x w) evs) then (unregC (cell x.sk fd') fd').1 else cell x.sk fd') := by
+  unfold pruneStale
+  cases h : aget x.registered w with
+  | none =>
+    refine ⟨rfl, ?_, ?_⟩
+    · intro w'; by_cases e : w' = w
+      · subst e; simp [h]
+      · simp [e]
+    · intro fd'; simp [regOf, h, staleOf, keysOf]
+  | some r =>
+    refine ⟨rfl, ?_, ?_⟩
+    · intro w'
+      simp only [aget_aset]
+      by_cases e : w' = w
+      · simp [e, keptOf]
+      · simp [e]
+    · intro fd'
+      simp only
+      rw [unregAll_cell]
+      simp [regOf, h, staleOf]
+
+theorem pruneStale_inv (x : Exec) (w : WorkId) (evs : List (Fd × Mask)) (hi : Inv x) :
+    Inv (pruneStale x w evs) := by
+  obtain ⟨hworks, hreg, hcell⟩ := pruneStale_spec x w evs
+  have hro : ∀ d, regOf (pruneStale x w evs) d = if d = w then keptOf (regOf x w) evs else regOf x d := by
+    intro d
+    unfold regOf
+    rw [hreg]
+    by_cases e : d = w
+    · subst e
+      cases aget x.registered d <;> simp [keptOf]
+    · simp [e]
+  have hkey : ∀ fd p, (cell (pruneStale x w evs).sk fd).key = some p →
+      (cell x.sk fd).key = some p ∧ fd ∉ keysOf (staleOf (regOf x w) evs) := by
+    intro fd p hk
+    rw [hcell] at hk
+    by_cases hs : fd ∈ keysOf (staleOf (regOf x w) evs)
+    · simp only [hs, if_true] at hk
+      have hnn : (cell x.sk fd).key ≠ none := by
+        intro hn; unfold unregC at hk; simp [hn] at hk; split at hk <;> simp_all
+      have := hi.mapNonneg fd hnn
+      unfold unregC at hk
+      have h0 : ¬ fd < 0 := Int.not_lt.mpr this
+      simp only [h0, if_false] at hk
+      cases hc : (cell x.sk fd).key with
+      | none => exact absurd hc hnn
+      | some q => simp only [hc] at hk; split at hk <;> (try split at hk) <;> simp at hk
+    · simp only [hs, if_false] at hk
+      exact ⟨hk, hs⟩
+  constructor
+  · intro fd m d hk
+    obtain ⟨hk1, hns⟩ := hkey fd (m, d) hk
+    have h1 := hi.mapReg _ _ _ hk1
+    rw [hro]
+    by_cases e : d = w
+    · subst e
+      simp only [if_true]
+      rw [aget_keptOf]
+      have hin : fd ∈ keysOf (regOf x d) := (mem_keysOf_iff _ _).2 (by rw [h1]; simp)
+      have : fd ∈ evs.map (·.1) := by
+        by_cases h : fd ∈ evs.map (·.1)
+        · exact h
+        · exact absurd ((mem_keysOf_staleOf _ _ _).2 ⟨hin, h⟩) hns
+      simp [this, h1]
+    · simp [e]; exact h1
+  · intro w' h
+    rw [hworks]
+    rw [hreg] at h
+    by_cases e : w' = w
+    · subst e
+      apply hi.regWorks
+      intro hn; simp [hn] at h
+    · simp [e] at h; exact hi.regWorks _ h
+  · intro fd h
+    cases hc : (cell (pruneStale x w evs).sk fd).key with
+    | none => exact absurd hc h
+    | some p => exact hi.mapNonneg fd (by rw [(hkey fd p hc).1]; simp)
+  · rw [hworks]; exact hi.nodup
+  · rw [hworks]; exact hi.noZero
+
+theorem updWork_inv (x : Exec) (w : WorkId) (ev : EvRes) (hw : w ∈ x.works) (hi : Inv x) :
+    Inv (updWork x w ev).1 ∧ (updWork x w ev).1.works = x.works := by
+  cases ev with
+  | exc => exact ⟨hi, rfl⟩
+  | ok evs =>
+    have h := updEvents_inv w evs x hw hi
+    simp only [updWork]
+    rcases hu : updEvents x w evs with ⟨x', bad⟩
+    rw [hu] at h
+    simp only at h
+    cases bad with
+    | true => exact h
+    | false => exact ⟨pruneStale_inv x' w evs h.1, (pruneStale_spec x' w evs).1.trans h.2⟩
+
+theorem updAll_inv (env : RoundEnv) (l : List WorkId) : ∀ (x : Exec), (∀ w ∈ l, w ∈ x.works) → Inv x →
+    Inv (updAll env x l).1 ∧ (updAll env x l).1.works = x.works ∧ (updAll env x l).2.Sublist l := by
+  induction l with
+  | nil => intro x _ hi; exact ⟨hi, rfl, List.Sublist.refl _⟩
+  | cons w r ih =>
+    intro x hl hi
+    unfold updAll
+    have h1 := updWork_inv x w (env.beh w).events (hl w (List.mem_cons_self)) hi
+    rcases h : updWork x w (env.beh w).events with ⟨x1, bad⟩
+    rw [h] at h1
+    simp only at h1
+    have h2 := ih x1 (fun v hv => h1.2 ▸ hl v (List.mem_cons_of_mem _ hv)) h1.1
+    simp only
+    refine ⟨h2.1, h2.2.1.trans h1.2, ?_⟩
+    cases bad
+    · simp; exact List.Sublist.cons _ h2.2.2
+    · simp; exact h2.2.2
+
 
 /-- the cell of `fd'` after `_cleanup(w)` -/
 def cleanC (r : List (Fd × Mask)) (closes : List Fd) (c : Cell) (fd' : Fd) : Cell :=
